@@ -1,4 +1,5 @@
 """C09: contracts for the leaf comparators of pattern equivalence (stix2/equivalence/pattern/compare/__init__.py)."""
+import ast
 import z3
 from vf.pyvc import engine as E
 from vf.pyvc.engine import Val, Exc, Unsupported, NONE, Int, Bool, Str, Seq, S, sat
@@ -152,7 +153,7 @@ def simple_comparison_expression_cmp_contract():
                         a['expr1'].x['negated'].t == a['expr2'].x['negated'].t, CONSTCMP(a['expr1'].x['rhs'].t, a['expr2'].x['rhs'].t) == 0)))],
                     raises={}, handlers={'object_path_cmp': _h_tokcmp(PATHCMP), 'comparison_operator_cmp': _h_tokcmp(OPCMP), 'constant_cmp': _h_tokcmp(CONSTCMP)},
                     assumptions=['callee contracts of simple_comparison_expression_cmp: object_path_cmp and constant_cmp are total preorders on their domains (assumed here; '
-                                 'comparison_operator_cmp is proved, constant_cmp is proved against the contracts of the per-kind comparators; object_path_cmp rests on the generator-based iter_lex_cmp, outside the modelled subset)'])
+                                 'comparison_operator_cmp is proved, constant_cmp and object_path_cmp are proved against the contracts of their own callees; what stays assumed at the bottom is iter_lex_cmp (generators) and hex_cmp / bin_cmp / list_cmp)'])
 
 
 def preorder_axioms(fn, toks):
@@ -396,3 +397,51 @@ def run_constant_cmp(chk, src_root):
     chk.lemma('constant_cmp: reflexive: cmp(a, a) == 0', F(a, a) == 0, assumptions=hyp)
     chk.lemma('constant_cmp: antisymmetric: sign cmp(a, b) == - sign cmp(b, a)', sgn(F(a, b)) == -sgn(F(b, a)), assumptions=hyp)
     chk.lemma('constant_cmp: transitive: cmp(a, b) <= 0 and cmp(b, c) <= 0 => cmp(a, c) <= 0', z3.Implies(z3.And(F(a, b) <= 0, F(b, d) <= 0), F(a, d) <= 0), assumptions=hyp)
+
+
+# ------------------------------------------------------------------------------------------------------------------------------------------
+# object_path_cmp: object type names first (string order), then the lexicographic comparison of the path steps (iter_lex_cmp with object_path_component_cmp, the latter proved above).
+LEXCMP = z3.Function('iter_lex_cmp[path steps]', TOK, TOK, z3.IntSort())
+
+
+def _path(n): return E.Rec(object_type_name=Str(z3.String(n + '.object_type_name')), steps=Val('tok', z3.Const(n + '.steps', TOK)))
+
+
+def object_path_cmp_contract():
+    def h_raw(x, e, p, site):
+        for p1, vs in x.ev_seq(list(e.args), p):
+            if isinstance(vs, Exc): yield p1, vs
+            elif vs[0].sort != 'rec' or 'steps' not in vs[0].x: raise Unsupported(site + ' object_path_to_raw_values of something else than a path')
+            else: yield p1, vs[0].x['steps']
+
+    def h_lex(x, e, p, site):
+        for p1, vs in x.ev_seq(list(e.args[:2]), p):
+            if isinstance(vs, Exc): yield p1, vs; continue
+            ok = len(e.args) == 3 and ast.unparse(e.args[2]) == 'object_path_component_cmp' and vs[0].sort == 'tok' and vs[1].sort == 'tok'
+            x.oblige('call(iter_lex_cmp): the two step sequences are compared with object_path_component_cmp', p1.pc, z3.BoolVal(bool(ok)), p1.exact, 'call-requires')
+            if not ok: raise Unsupported(site + ' iter_lex_cmp call shape')
+            yield p1, Int(LEXCMP(vs[0].t, vs[1].t))
+
+    def callee(a): return z3.And(*preorder_axioms(LEXCMP, [a['path1'].x['steps'].t, a['path2'].x['steps'].t]))
+    return Contract(f'{CC}::object_path_cmp', props=['C09'], params={'path1': _path('path1'), 'path2': _path('path2')},
+                    requires=[('callee contract: the lexicographic comparison of step sequences is a total preorder', callee)],
+                    ensures=[('0 only for paths of the same object type whose step sequences compare equal', lambda a, r: z3.Implies(expect(r, 'int') == 0, z3.And(
+                        a['path1'].x['object_type_name'].t == a['path2'].x['object_type_name'].t, LEXCMP(a['path1'].x['steps'].t, a['path2'].x['steps'].t) == 0)))],
+                    raises={}, handlers={'object_path_to_raw_values': h_raw, 'iter_lex_cmp': h_lex},
+                    assumptions=['callee contract of object_path_cmp: iter_lex_cmp over two step sequences with object_path_component_cmp (proved: a total preorder on steps) is a total preorder '
+                                 '(lexicographic lifting; iter_lex_cmp itself -- next()/StopIteration over generators -- is outside the modelled subset, compared natively with a reference in the bounded part)'])
+
+
+def run_object_path_cmp(chk):
+    from vf.summary import Summary, sgn
+    c = object_path_cmp_contract(); rep = chk.prove(c); chk.canary(c)
+    s = Summary(rep, ['path1', 'path2'])
+    if not s.ok:
+        chk.undecided_notes.append(f'object_path_cmp: no summary ({s.why})'); return
+    mk = lambda n: [z3.String(f'op_{n}.type'), z3.Const(f'op_{n}.steps', TOK)]            # leaf_terms order: object_type_name, steps
+    a, b, d = mk('a'), mk('b'), mk('c')
+    ax = preorder_axioms(LEXCMP, [a[1], b[1], d[1]])
+    F = lambda u, v: s.apply(u, v)
+    chk.lemma('object_path_cmp: reflexive: cmp(a, a) == 0', F(a, a) == 0, assumptions=ax)
+    chk.lemma('object_path_cmp: antisymmetric: sign cmp(a, b) == - sign cmp(b, a)', sgn(F(a, b)) == -sgn(F(b, a)), assumptions=ax)
+    chk.lemma('object_path_cmp: transitive: cmp(a, b) <= 0 and cmp(b, c) <= 0 => cmp(a, c) <= 0', z3.Implies(z3.And(F(a, b) <= 0, F(b, d) <= 0), F(a, d) <= 0), assumptions=ax)
